@@ -1094,6 +1094,14 @@ def gen_seq(chk):
                 continue
             for ci, (ext, incl) in enumerate([(".json", False), (".yaml", True)]):
                 cases.append({"fam": "seq", "name": "p" + ext, "incl": incl, "ops": list(seq)})
+    # 2b. tiny hashing chunk sizes (the read loop of _hash_file): A and B differ only in their 21st byte
+    alpha2b = ["Ia", "Ib", "Ic", "T", "E"]
+    for n in range(2, 5):
+        for seq in itertools.product(alpha2b, repeat=n):
+            if seq[-1] != "E" or seq.count("E") < 2:
+                continue
+            for chunk in (1, 5, 22, 23):
+                cases.append({"fam": "seq", "name": "p.json", "incl": False, "ops": list(seq), "chunk": chunk})
     # 3. seeded random longer histories over the whole alphabet and a wider content pool
     alpha3 = ["Wa", "Wb", "Wc", "Ia", "Ib", "Ic", "Ra", "Rb", "Fa", "Fb", "Q", "T", "D", "E", "E", "L", "L",
               "E:Wb", "E:Ra", "E:D", "E:T", "E:Q", "Wd", "Id"]
@@ -1219,6 +1227,52 @@ def check_rw(chk, c):
 
 
 # --------------------------------------------------------------------------
+# fam "big": files larger than the default hashing chunk (512 KiB); judged directly, no model run
+# --------------------------------------------------------------------------
+def check_big(chk, c):
+    from rbacx.store.file_store import FilePolicySource, atomic_write
+
+    d = tempfile.mkdtemp(prefix="c16_")
+    try:
+        path = os.path.join(d, c["name"])
+        size = c.get("size", 1_200_000)
+        body = ("x" * 63 + " ") * (size // 64)
+        docs = {"a": '{"pad": "' + body + '", "v": "a"}', "b": '{"pad": "' + body + '", "v": "b"}',
+                "c": '{"v": "a", "pad": "' + body + '"}'}
+        src = FilePolicySource(path, include_mtime_in_etag=bool(c.get("incl")),
+                               **({"chunk_size": c["chunk"]} if c.get("chunk") else {}))
+        seen = []
+        tick = 10_000
+        for sym in c["ops"]:
+            if sym in docs:
+                atomic_write(path, docs[sym])
+                tick += 1000
+                os.utime(path, ns=(tick, tick))
+            elif sym == "E":
+                with open(path, "rb") as f:
+                    bts = f.read()
+                seen.append((bts, os.stat(path).st_mtime_ns, src.etag()))
+            elif sym == "L":
+                got = src.load()
+                if got != json.loads(docs[[k for k in docs if docs[k].encode() == open(path, "rb").read()][0]]):
+                    chk.violation("load() of a large file did not return the parse of its content", c, impl="differs")
+        bad = None
+        for i in range(len(seen)):
+            for j in range(i):
+                (b1, m1, t1), (b2, m2, t2) = seen[j], seen[i]
+                if b1 == b2 and (not c.get("incl") or m1 == m2) and t1 != t2:
+                    bad = "two observations of unchanged content have different tags (large file)"
+                if b1 != b2 and t1 == t2:
+                    bad = "content differs (together with its mtime) but the tags are equal (large file)"
+        chk.mark(("big", json.dumps(c, sort_keys=True)), True)
+        chk.count("big:files")
+        if bad:
+            chk.violation(bad, c, impl=[t for _b, _m, t in seen])
+    finally:
+        shutil.rmtree(d, ignore_errors=True)
+
+
+# --------------------------------------------------------------------------
 def check_cases(chk, cases, replay=False):
     by = {}
     for c in cases:
@@ -1233,6 +1287,8 @@ def check_cases(chk, cases, replay=False):
         break
     for c in by.get("rw", []):
         check_rw(chk, c)
+    for c in by.get("big", []):
+        check_big(chk, c)
 
 
 def corpus_cases():
@@ -1259,7 +1315,9 @@ def run(chk):
         "{.json,.yaml,.yml} x include_mtime, every history up to length 3 (thorough 4) over {restore with preserved "
         "mtime A/B, in-place rewrite, failed atomic write, delete, etag, etag with a change between stat and read, "
         "load}, seeded random histories of length 5-14; non-trivial = at least one observation and one "
-        "modification.  doc: 26 contents x 14 file names x validate on/off.  rw: reader threads vs a writer.  "
+        "modification; plus tiny hashing chunk sizes and files larger than the default 512 KiB chunk (the latter "
+        "judged directly, without the model).  doc: 26 contents x 14 file names x validate on/off.  rw: reader "
+        "threads vs a writer.  "
         "distinct = distinct case JSON")
     chk.assumptions = [
         "os.replace is atomic and the completed system calls of a killed process stay visible (the OS's; exercised "
@@ -1281,6 +1339,9 @@ def run(chk):
     check_format(chk)
     check_cases(chk, gen_doc(chk))
     check_cases(chk, gen_seq(chk))
+    for chunk in (None, 4096):
+        check_cases(chk, [{"fam": "big", "name": "p.json", "incl": False, "chunk": chunk,
+                           "ops": ["a", "E", "b", "E", "a", "E", "L", "c", "E", "E"]}])
     n_rw = 2 if chk.tier == "quick" else 8
     for i in range(n_rw):
         check_rw(chk, {"fam": "rw", "name": ["p.json", "p.yaml"][i % 2], "incl": bool(i % 2),
